@@ -960,4 +960,46 @@ theorem mkSint_eq (i : Int) : ∃ w, Prim.mkSint i = .sint w i := by
     · exact ⟨_, rfl⟩
     · split <;> exact ⟨_, rfl⟩
 
+/-! ### the fallible writer `TLVWrite::tlv` (after the fix): refuses what does not fit, otherwise `encode` -/
+
+/-- `Prim.wf` = what the Rust types enforce + the writer's length check -/
+theorem Prim.wf_iff (p : Prim) : p.wf ↔ p.typed ∧ p.lenFits = true := by
+  cases p <;> simp [Prim.wf, Prim.typed, Prim.lenFits, and_comm]
+
+mutual
+theorem Value.wf_iff : ∀ v : Value, v.wf ↔ v.typed ∧ v.lenFits = true
+  | .leaf t p => by
+    simp only [Value.wf, Value.typed, Value.lenFits, Prim.wf_iff]
+    exact ⟨fun ⟨a, b, c⟩ => ⟨⟨a, b⟩, c⟩, fun ⟨⟨a, b⟩, c⟩ => ⟨a, b, c⟩⟩
+  | .cont t k cs => by
+    simp only [Value.wf, Value.typed, Value.lenFits, Values.wf_iff cs]
+    exact ⟨fun ⟨a, b, c⟩ => ⟨⟨a, b⟩, c⟩, fun ⟨⟨a, b⟩, c⟩ => ⟨a, b, c⟩⟩
+theorem Values.wf_iff : ∀ vs : Values, vs.wf ↔ vs.typed ∧ vs.lenFits = true
+  | .nil => by simp [Values.wf, Values.typed, Values.lenFits]
+  | .cons v vs => by
+    simp only [Values.wf, Values.typed, Values.lenFits, Value.wf_iff v, Values.wf_iff vs, Bool.and_eq_true]
+    exact ⟨fun ⟨⟨a, b⟩, c, d⟩ => ⟨⟨a, c⟩, b, d⟩, fun ⟨⟨a, c⟩, b, d⟩ => ⟨⟨a, b⟩, c, d⟩⟩
+end
+
+mutual
+/-- the fallible writer either refuses the tree (`InvalidData`: some string does not fit its length field)
+or produces exactly `encode v` -/
+theorem write_eq : ∀ v : Value, write v = if v.lenFits then .ok (encode v) else .err .invalidData
+  | .leaf t p => by
+    cases h : p.lenFits <;> simp [write, writeLeaf, Value.lenFits, encode, h]
+  | .cont t k cs => by
+    cases h : cs.lenFits <;> simp [write, writes_eq cs, Value.lenFits, encode, h]
+theorem writes_eq : ∀ vs : Values, writes vs = if vs.lenFits then .ok (encodes vs) else .err .invalidData
+  | .nil => by simp [writes, Values.lenFits, encodes]
+  | .cons v vs => by
+    cases h1 : v.lenFits <;> cases h2 : vs.lenFits <;>
+      simp [writes, write_eq v, writes_eq vs, Values.lenFits, encodes, h1, h2]
+end
+
+theorem write_ok_iff (v : Value) (b : Bytes) : write v = .ok b ↔ v.lenFits = true ∧ b = encode v := by
+  rw [write_eq]
+  split
+  · rename_i h; simp [h, eq_comm]
+  · rename_i h; simp [h]
+
 end Tlv
